@@ -4,4 +4,10 @@ go 1.20
 
 require github.com/Workiva/frugal v0.0.0
 
+require (
+	golang.org/x/mod v0.15.0 // indirect
+	golang.org/x/tools v0.18.0 // indirect
+	gopkg.in/yaml.v2 v2.4.0 // indirect
+)
+
 replace github.com/Workiva/frugal => /repo
